@@ -50,12 +50,21 @@ Proof.
     + eapply IH; eauto.
 Qed.
 
+Lemma NoDup_snoc : forall (l : list sym) x, NoDup l -> ~ In x l -> NoDup (l ++ [x]).
+Proof.
+  induction l as [|a l IH]; simpl; intros x H Hn.
+  - constructor; [intros []|constructor].
+  - inversion H; subst. constructor.
+    + intro Hin. apply in_app_iff in Hin. destruct Hin as [Hin|[Hin|[]]]; auto.
+    + apply IH; auto.
+Qed.
+
 Lemma nstep_NoDup : forall S0 l acc, NoDup acc -> NoDup (fold_left (nstep_f S0) l acc).
 Proof.
   induction l as [|[nt rules] l IH]; intros acc H; simpl; auto.
   destruct (mem nt acc) eqn:E; auto.
   destruct (existsb _ rules); auto. apply IH.
-  apply NoDup_app_snoc. split; auto. intro Hin. apply mem_In in Hin. congruence.
+  apply NoDup_snoc; auto. intro Hin. apply mem_In in Hin. congruence.
 Qed.
 
 Lemma nstep_complete : forall S0 l acc nt rules r,
@@ -140,7 +149,7 @@ Section Null.
   Lemma nullables_exact_l : nulls_exact g (nullables g).
   Proof.
     intro s. rewrite mem_In. destruct nullables_fix as [[_ [_ Hs]] Hfix]. split; [apply Hs|].
-    apply Nullable_ind'. intros A r Hin _ IH.
+    revert s. apply (Nullable_ind' R (fun s => In s (nullables g))). intros A r Hin _ IH.
     destruct (grules_In g A r Hin) as [rules [H1 H2]].
     rewrite <- Hfix. rewrite null_step_unfold.
     eapply nstep_complete; eauto. apply prod_all_in_spec.
